@@ -163,7 +163,7 @@ def sm_table_stage(work, v, findings, prop, harness, name, c, fields, acc):
                             paths_replayed=s["paths_replayed"], walks=s["walks"],
                             steps_executed=s["steps_executed"], mismatches=s["mismatches"],
                             tlc_wall_s=round(res["wall"], 1), replay_wall_s=round(wall, 1)))
-    for smp in s.get("samples", [])[:2]:
+    for smp in (s.get("samples") or [])[:2]:
         acc["samples"].append(dict(kind="table-replay", init=smp["init"],
                                    steps=[dict(call=x["c"], on=x["on"], expected_ret=x["exp_ret"]) for x in smp["steps"]][:6]))
     seen = {}
@@ -331,10 +331,20 @@ def gen_cases_stage(work, v, findings, prop, harness, acc, module, family, fn, c
     acc["instances"].append(dict(name=name, kind="exhaustive case family", function=fn, cases=s["cases"],
                                  distinct_expected_results=s["distinct_expected"], mismatches=s["mismatches"],
                                  tlc_wall_s=round(res["wall"], 1), replay_wall_s=round(wall, 1)))
-    for smp in s.get("samples", [])[:1]:
+    for smp in (s.get("samples") or [])[:1]:
         acc["samples"].append(dict(kind="case", function=fn, family=family, **smp))
-    for rec in lib.read_ndjson(mm)[:3]:
-        triage(v, findings, prop, harness, rec, None)
+    acc["known_asbuilt"] = acc.get("known_asbuilt", 0) + s.get("known_asbuilt", 0)
+    nv = 0
+    for rec in lib.read_ndjson(mm):
+        if rec.get("class", "").endswith("/asbuilt"):
+            f = findings.match(prop, rec["class"])
+            if f is not None:
+                v.known_finding("%s: %d of %d cases of family %s show exactly the listed as-built outcome (%s)" % (
+                    rec["class"], s.get("known_asbuilt", 0), s["cases"], family, f["_line"][:120]))
+                continue
+        nv += 1
+        if nv <= 3:
+            triage(v, findings, prop, harness, rec, None)
 
 
 def check_cases_stage(work, v, findings, prop, harness, acc, module, fn, n, depth=3, forms=True, salt=0, timeout=1200):
@@ -358,7 +368,14 @@ def check_cases_stage(work, v, findings, prop, harness, acc, module, fn, n, dept
     if r["consumed"] != n or r["lines"] != n:
         raise Infra("%s consumed %s of %s lines" % (module, r["consumed"], n))
     acc["states"] += res["distinct"]; acc["traces"] += n; acc["trace_events"] += n; acc["evaluations"] += n
-    acc["tv"].append(dict(name="random-" + name, cases=n, max_depth=depth, alias_forms=forms, rejected_lines=len(r["bad"]), tlc_wall_s=round(res["wall"], 1)))
+    acc["tv"].append(dict(name="random-" + name, cases=n, max_depth=depth, alias_forms=forms, rejected_lines=len(r["bad"]),
+                          known_asbuilt=r.get("known", 0), outside_domain=r.get("outside", 0), tlc_wall_s=round(res["wall"], 1)))
+    if r.get("known", 0) > 0:
+        sig = "%s/%s/asbuilt" % (prop, fn)
+        f = findings.match(prop, sig)
+        if f is None:
+            raise Infra("as-built outcomes observed for %s but no open finding %s is listed" % (fn, sig))
+        v.known_finding("%s: %d random inputs show exactly the listed as-built outcome (%s)" % (sig, r["known"], f["_line"][:120]))
     if r["bad"]:
         lines = lib.read_ndjson(casef)
         for b in r["bad"][:3]:
@@ -682,6 +699,25 @@ def c07(work, v, tier):
                     "0..3 (quick) / 0..5 (thorough) over -1..width+1; the value returned by the real Traverse is mapped back to a structural address by object "
                     "identity and compared. code -> spec: random deeper / wider trees (Condition-in-Condition chains included) with random paths validated by Check_Traverse.tla",
                     gens=gens, rands=[dict(module="Check_Traverse", fn="traverse", n=1500 if q else 15000, depth=3 if q else 4)])
+
+
+@check("C19")
+def c19(work, v, tier):
+    q = tier == "quick"
+    lims = "{0, 1, 2, 3}"
+    gens = [dict(module="Gen_Defrag", family="top", fn="defrag", consts=dict(MaxLen=8 if q else 12, Limits=lims), timeout=3000),
+            dict(module="Gen_Defrag", family="instack", fn="defrag", consts=dict(MaxLen=6 if q else 9, Limits=lims), timeout=3000),
+            dict(module="Gen_Defrag", family="incond", fn="defrag", consts=dict(MaxLen=6 if q else 9, Limits=lims), timeout=3000),
+            dict(module="Gen_Defrag", family="alias", fn="defrag", consts=dict(MaxLen=4 if q else 6, Limits="{0, 2}"), timeout=3000)]
+    return sm_check(work, v, "C19", tier, [], [], [],
+                    ["Laws of DefragSpec on every generated input: no nil left anywhere, idempotent, a nil-free stack is untouched, Len = number of non-nil elements"],
+                    "Defrag against spec/Defrag.tla: EVERY nil / non-nil pattern of length 0..8 (quick) / 0..12 (thorough) x scan limits {default,1,2,3} x the four "
+                    "index-option sets x nesting position (top, inside a Stack at position 0 and 1, inside a Condition, alias / pointer forms), restricted to "
+                    "the property's domain (every nil run shorter than the limit); the whole resulting tree and Err() are compared. The package's Defrag is "
+                    "known to be wrong for almost every input with a gap (open finding; an existing test pins one wrong outcome): an outcome that equals "
+                    "DefragAsBuilt - a transcription of defrag/implode/verifyImplode - on such an input is reported as KNOWN-FINDING, any other deviation "
+                    "is a VIOLATION. Random longer patterns with nested pattern stacks are classified the same way by Check_Defrag.tla",
+                    gens=gens, rands=[dict(module="Check_Defrag", fn="defrag", n=3000 if q else 30000, depth=2)])
 
 
 def replay(prop, path, work):
